@@ -73,6 +73,10 @@ def mv_proj(m):
     return [[repr(k), proj_base(m.tracked_value[k])] for k in keys]
 
 
+class NotADict(Exception):
+    """an accessor that is specified to return a dict returned something else"""
+
+
 def mv_traces(rng, ntraces, length):
     """Random update-dict sequences (changing key sets) through MultiValueTracker."""
     W, E, MV = _imp()
@@ -100,6 +104,8 @@ def mv_traces(rng, ntraces, length):
             m.update(dict(upd))
             got = m.get()
             norm = m.get_normalized()
+            if not isinstance(got, dict) or not isinstance(norm, dict):
+                raise NotADict("MultiValueTracker.get() / get_normalized() returned %r / %r" % (type(got).__name__, type(norm).__name__))
             exact_zero = sum(got.values()) == 0
             red_zero = sum(red(v) for v in got.values()) % P == 0
             try:
